@@ -1,2 +1,2 @@
 import ScVerif.C15.Drv
-def main : IO Unit := ScVerif.Line.runDriverS ([] : List String) ScVerif.C15.handleS
+def main : IO Unit := ScVerif.Line.runDriverS ({} : ScVerif.C15.St) ScVerif.C15.handleS
